@@ -98,6 +98,7 @@ type call struct {
 	ackRecvT time.Duration // when the client's reader took an ack for it (-1: never)
 	ackConn  int
 	resRecvT time.Duration // when the client's reader took its result (-1: never)
+	resConn  int
 	ackSent  bool
 	retT     time.Duration // caller returned (-1: not yet)
 	err      error
@@ -230,7 +231,7 @@ func runC29(t *testing.T, tape *simrt.Tape, env dst.Env) *simrt.Outcome {
 					}
 					plan := 0
 					if !calm && kills > 0 {
-						plan = tape.Choose(simrt.Fault, 9)
+						plan = tape.Choose(simrt.Fault, 10)
 					}
 					d1 := time.Duration(tape.Choose(simrt.Net, 4)) * 100 * time.Millisecond
 					d2 := time.Duration(1+tape.Choose(simrt.Net, 4)) * 100 * time.Millisecond
@@ -259,6 +260,9 @@ func runC29(t *testing.T, tape *simrt.Tape, env dst.Env) *simrt.Outcome {
 					case 6: // ack and death at the same instant
 						kills--
 						later(d1, func() { ack(); kill(c, fmt.Sprintf("together with the ack of tag %d", tag)) })
+					case 9: // never acknowledged: the result and the death of the link at the same instant
+						kills--
+						later(d1, func() { result(); kill(c, fmt.Sprintf("together with the unacknowledged result of tag %d", tag)) })
 					case 7: // ack, then result and death at the same instant
 						kills--
 						later(d1, func() { ack(); later(d2, func() { result(); kill(c, fmt.Sprintf("together with the result of tag %d", tag)) }) })
@@ -288,7 +292,7 @@ func runC29(t *testing.T, tape *simrt.Tape, env dst.Env) *simrt.Outcome {
 					}
 				}
 				if cl := calls[f.resOf]; f.resOf != 0 && cl != nil && cl.resRecvT < 0 {
-					cl.resRecvT = simrt.Now()
+					cl.resRecvT, cl.resConn = simrt.Now(), c.n
 				}
 			}
 			conns = append(conns, c)
@@ -431,7 +435,9 @@ func runC29(t *testing.T, tape *simrt.Tape, env dst.Env) *simrt.Outcome {
 					viol("C29.acked-no-error", "acked-no-error", "request %d was acknowledged, its connection died without a result, and the call still returned success", tag)
 				}
 			}
-			if cl.resRecvT >= 0 {
+			// (a result read in the very moment the link dies may be lost with it:
+			// like an ack in that position it counts as either outcome)
+			if rc := cl.resConn; cl.resRecvT >= 0 && (connOf(rc).killedT < 0 || cl.resRecvT+time.Millisecond <= connOf(rc).killedT) {
 				for _, sr := range cl.sends {
 					if sr.t > cl.resRecvT+time.Millisecond {
 						viol("C29.resent-after-result", "resent-after-result", "request %d was transmitted again (connection %d at %v) after its result had reached the client at %v", tag, sr.conn, sr.t, cl.resRecvT)
